@@ -21,6 +21,7 @@ def main():
     seed = int(os.environ.get("VERIF_SEED", "20260930"))
     mod = importlib.import_module("props.%s" % a.prop)
     ctx = common.Ctx(a.prop, a.tier, seed, mod)
+    ctx.dev_run = bool(a.no_prove or a.replay)   # developer / replay runs never overwrite the registered evidence
     rc = 2
     try:
         ctx.prepare_impl()
